@@ -3,7 +3,7 @@ from __future__ import annotations
 
 from hypothesis import strategies as st
 
-from vlib.run import Result, Sub
+from vlib.run import Result, Sub, open_finding_ids
 from vlib.gen import families
 
 from picosvg.svg import SVG
@@ -18,7 +18,21 @@ RULE = (
     "Non-trivial = o1 contains a path and the source used a transform, clip, stroke, gradient, opacity group or an "
     "invisible leaf; distinct = distinct (source, ndigits)."
 )
-ASSUMPTIONS = ["pure byte equality, no tolerance"]
+ASSUMPTIONS = ["pure byte equality, no tolerance", "open finding F30: passes that differ only in the order of gradients inside defs are counted as excluded (pinned replay findings/C07-F30-defs-order.json)"]
+
+
+def _defs_sorted(out: str) -> str:
+    """The document with the children of defs sorted by id (everything else untouched)."""
+    import re
+
+    m = re.search(r"<defs>(.*?)</defs>", out, re.S)
+    if not m:
+        return out
+    kids = [mm.group(0) for mm in re.finditer(r"<(linear|radial)Gradient\b[^>]*?(?:/>|>.*?</\1Gradient>)", m.group(1), re.S)]
+    if "".join(kids) != m.group(1):
+        return out
+    key = lambda k: re.search(r'id="([^"]*)"', k).group(1) if re.search(r'id="([^"]*)"', k) else ""
+    return out[: m.start(1)] + "".join(sorted(kids, key=key)) + out[m.end(1) :]
 
 
 def _conv(s, nd):
@@ -43,6 +57,11 @@ def check_doc(case) -> Result:
         o3 = _conv(o2, nd)
     except Exception as e:
         r.bad("second-pass-raises", f"converting an already converted document raised {type(e).__name__}: {str(e)[:200]}; o1={o1[:400]}")
+        return r
+    if o1 != o2 and not case.get("pinned") and "F30" in open_finding_ids("C07") and _defs_sorted(o1) == _defs_sorted(o2):
+        # neutraliser for open finding F30: the passes differ ONLY in the order of the gradients inside defs
+        r.excluded = "F30"
+        r.nontrivial = True
         return r
     if o1 != o2:
         i = next((k for k, (a, b) in enumerate(zip(o1, o2)) if a != b), min(len(o1), len(o2)))
